@@ -556,6 +556,24 @@ def shard_pfn(idx, nshards, seed, n_random, known, quick):
             if fn.startswith("#"):
                 work.append(("Test", fn, [v], [cls], 2))
             work.append(("Talk:Foo/bar", fn, [v, v], [cls], 1))
+    # exhaustive: every #expr binary operator x every pair of extreme
+    # operands, every unary operator x every extreme operand
+    EXTREME = ["0", "1", "- 1", "0.5", "1e400", "- 1e400",
+               "(1.5e200 * 1.5e200)", "1e-400", "99999999999999999999",
+               "- 99999999999999999999", "4300", "(1e308 * 10 - 1e308 * 10)"]
+    BIN = ["+", "-", "*", "/", "div", "mod", "^", "round", "e", "=", "!=",
+           "<>", "<", ">", "<=", ">=", "and", "or"]
+    UN = ["-", "+", "not", "ceil", "trunc", "floor", "abs", "sqrt", "exp",
+          "ln", "sin", "cos", "tan", "acos", "asin", "atan"]
+    for op in BIN:
+        for a in EXTREME:
+            for b in EXTREME:
+                work.append(("Test", "#expr", [f"{a} {op} {b}"], ["expr-extreme"], 1))
+    for op in UN:
+        for a in EXTREME:
+            work.append(("Test", "#expr", [f"{op} {a}"], ["expr-extreme"], 1))
+            work.append(("Test", "#ifexpr", [f"{op} {a}", "y", "n"],
+                         ["expr-extreme"], 1))
     for i, (t, fn, args, classes, form) in enumerate(work):
         if i % nshards != idx:
             continue
@@ -611,13 +629,16 @@ def run(run):
     run.rule = (
         "(a) all call graphs on <=3 templates (exhaustive in thorough, every "
         "7th in quick) + cycles through arguments / defaults / #if / #switch "
-        "+ literal nesting to depth 150 + Hypothesis-generated libraries with "
+        "+ literal nesting to depth 150 and, as text, to 400 and 1000 + "
+        "Hypothesis-generated libraries with "
         "arbitrary (cyclic) call graphs on <=5 templates; oracle: returns str "
         "within 20 s without exception; if the pure reference semantics "
         "diverges the output must carry an error element and a recorded "
         "warning/error, otherwise an error-free output must equal the "
         "reference value. (b) every key of PARSER_FUNCTIONS (minus the two "
         "network functions) x every pool value x call forms x page titles "
+        "(enumerated) + every #expr binary operator x every pair of 12 extreme "
+        "operands and every unary operator x every extreme operand "
         "(enumerated) + Hypothesis argument vectors of length 0-5 + operator "
         "soups for #expr/#ifexpr/plural; oracle: returns str, no exception, "
         "within 20 s. Non-trivial: (a) cyclic library or >=10 nested calls; "
